@@ -72,15 +72,15 @@ CHECKS = {
         'technique': 'the C01/C02 contracts instantiated with the capture-only mode',
     },
     'C05': {
-        'text': 'Unbounded proof, for ANY table contents: key_ok(b,h) := b.zobrist_key == hash_of(b,h) (from-scratch XOR over 64 squares, side, four rights, en-passant file) is preserved by the four BoardState mutators (exact frame+effect contracts) and established for every successor returned by generate_moves in both modes (direct key writes at the double-step, en-passant-victim and promotion sites are proved locally).',
-        'design_ref': 'DESIGN.md 4/C05',
-        'note': 'Trusted as for C01. Not decided here: from_fen builds hash_of from scratch (string code outside both verifiers); the text applier make_move is covered by C04 when registered; distinctness of the ChaCha8 constants is not a deductive matter.',
-        'technique': 'Verus: key_ok as a representation invariant preserved by every mutator and every successor builder',
+        'text': 'Unbounded proof, for ANY table contents: key_ok(b,h) := b.zobrist_key == hash_of(b,h) (from-scratch XOR over 64 squares, side, four rights, en-passant file) is preserved by the four BoardState mutators (exact frame+effect contracts), established for every successor returned by generate_moves in both modes (direct key writes at the double-step, en-passant-victim and promotion sites proved locally) and by the text applier make_move. Route independence is the corollary (every producer under contract yields hash_of(position)). "Changing a single component changes the key" is an exhaustive evaluation of the 781 real ChaCha8 constants (pairwise distinct, non-zero) -- exhaustive, not deductive.',
+        'design_ref': 'DESIGN.md 4/C05, 11',
+        'note': 'Trusted as for C01 plus the C04 text helpers. Not decided deductively: from_fen builds hash_of from scratch (string code outside both verifiers) -- BOUNDED native stand-in only (oracle-generated FENs load with the from-scratch key), labelled bounded, not counted.',
+        'technique': 'Verus: key_ok as a representation invariant preserved by every mutator, every successor builder and make_move',
     },
     'C10': {
         'text': 'Unbounded proof for the table operations: new/clear give the empty table, add_board_to_draw_table changes exactly one count by one (frame over all other keys), is_threefold_repetition leaves the table unchanged and answers exactly "already seen at least twice". Over vstd\'s HashMap model.',
         'design_ref': 'DESIGN.md 4/C10',
-        'note': 'Not decided and said so: the position handler loop in play_out_position (clear/insert/add per move) and the whole search clause (score never below zero) are outside both verifiers; positions are identified with 64-bit keys (collisions not excluded); remove_board_from_draw_table is outside the Verus subset (Some(&val) pattern).',
+        'note': 'The position handler (clear + play_out_position) is string code outside both verifiers: BOUNDED native stand-in only (seeded random games incl. repetitions: the table must equal the exact occurrence counts), labelled bounded, not counted. The whole search clause (score never below zero) is not decided (search is outside both verifiers); positions are identified with 64-bit keys (collisions not excluded); remove_board_from_draw_table is outside the Verus subset (Some(&val) pattern).',
         'technique': 'Verus contracts on DrawTable over the vstd HashMap model',
     },
     'C14': {
